@@ -541,7 +541,37 @@ def r11(ctx, R="C05-R11"):
     ctx.floor(R, 1)
 
 
+def r12(ctx):
+    R = "C05-R12"
+    ctx.rule(R, "the filesystem context pairs a filesystem with *its* clock: every FsContext { fs, now } is built either from the thread-locals "
+                "installed by `enter` (CURRENT_FS_ARC with CURRENT_NOW) or from a worker thread's handle (WorkerContext::fs with "
+                "WorkerContext::time) - never the filesystem of one with the time of the other: CURRENT_NOW is only set on the simulation "
+                "thread, a worker that reads it stamps every operation with epoch time zero")
+    if ctx.config not in ("all", "fs", "fs_iou"):
+        return
+    n = 0
+    for b in sorted(ctx.w.bodies.values(), key=lambda x: x.id):
+        if b.crate != "turmoil_fs":
+            continue
+        for bb, i, st in b.all_stmts():
+            r = st["r"]
+            if i == "term" or r["k"] != "agg" or r.get("adt") != "turmoil_fs::FsContext" or list(r.get("fields", [])) != ["fs", "now"]:
+                continue
+            fa, na = Slicer(ctx.w).atoms(b, r["ops"][0]), Slicer(ctx.w).atoms(b, r["ops"][1])
+            src_f = "worker" if "field:turmoil_fs::WorkerContext::fs" in fa else "entered" if "const:CURRENT_FS_ARC" in fa else None
+            src_n = "worker" if "field:turmoil_fs::WorkerContext::time" in na else "entered" if "const:CURRENT_NOW" in na else None
+            if src_f is None and src_n is None:
+                continue
+            n += 1
+            ok = src_f == src_n
+            ctx.inst(R, f"fs-context:{b.id}#{n}", ok, st["s"], f"filesystem and clock both come from the {src_f} context" if ok else
+                     f"`{b.id}` builds an FsContext from the {src_f} filesystem and the {src_n} clock: operations made through a worker thread's handle are stamped with the "
+                     "thread-local time of a thread that never entered a step (zero) - file times disagree with since_epoch() and go backwards")
+    ctx.floor(R, 4)
+
+
 def run(ctx):
+    r12(ctx)
     r11(ctx)
     r10(ctx)
     from . import C04
